@@ -283,3 +283,18 @@ func SetFiles(names []string)                              {}
 func FileSet(name string, words []uint64, cutBytes uint64) {}
 
 func HookCall(fullName string, f func()) {}
+
+func RedirectCall(fullName string, f interface{}) {}
+
+func PutBE64(b []byte, v uint64) {
+	for i := 0; i < 8; i++ {
+		b[i] = byte(v >> (56 - 8*uint(i)))
+	}
+}
+func BE64(b []byte) uint64 {
+	var v uint64
+	for i := 0; i < 8; i++ {
+		v = v<<8 | uint64(b[i])
+	}
+	return v
+}
